@@ -1287,6 +1287,12 @@ static string bddHist(const vector<string>& steps)
 			pool.emplace_back(new Aut(Aut::Union(ent(1), ent(2), &ml, &mr)));
 			out << " ml" << k << "=" << dumpMap(ml) << " mr" << k << "=" << dumpMap(mr);
 		}
+		else if (op == "unionpre") {
+			// caller-supplied PRE-FILLED translation maps (injective, disjoint images)
+			AutBase::StateToStateMap ml = parseMap(f.at(3)), mr = parseMap(f.at(4));
+			pool.emplace_back(new Aut(Aut::Union(ent(1), ent(2), &ml, &mr)));
+			out << " ml" << k << "=" << dumpMap(ml) << " mr" << k << "=" << dumpMap(mr);
+		}
 		else if (op == "uniondisj") { pool.emplace_back(new Aut(Aut::UnionDisjointStates(ent(1), ent(2)))); }
 		else if (op == "isect") {
 			AutBase::ProductTranslMap m;
